@@ -569,7 +569,7 @@ func normNum(v any) any {
 
 func runC14(c *explore.Ctx) {
 	e := c14Setup()
-	bound := c.Pick(2, 3)
+	bound := c.Pick(2, 4)
 	s := c.Sub("values", fmt.Sprintf("all %d variable types (list depth ≤ 3 × every non-null pattern × {Int, Float, String, Boolean, ID, enum, recursive input object, custom scalar}) × every value reachable from the conforming skeleton by ≤ %d deviations (null, empty list, single value for list, null item, each of 22 leaf alternatives incl. json.Number forms and typed slices, 19 input-object variants incl. unknown / missing / null / __typename / other __-prefixed fields, typed map, nested objects and lists, one map instance used at two positions of different types) × {no default, default}", len(e.types), bound),
 		"VariableValues returns normally; if the value cannot be coerced (ref/refcoerce) an error is returned; on success every declared variable conforms to its type and the absent second variable holds its default", "executions that return values")
 	if s != nil {
